@@ -28,9 +28,17 @@ HaveEnv == env.n > 0
 Usable(e) == HaveEnv /\ e.raised = "" /\ RunOK(env, e.p, e.T)
 
 \* verdict line with accounting extras (npos: decided grid positions, nund: undecidable ones)
-EmitX(e, fails, kf, hits, drift, rejected, npos, nund) ==
+\* use: largest share (percent) of the Batchelor tolerance consumed at a judged position (margin accounting)
+EmitY(e, fails, kf, hits, drift, rejected, npos, nund, use) ==
   PrintT("VJ " \o ToJson([case |-> e.case, ev |-> e.ev, fails |-> fails, kf |-> kf, hits |-> hits,
-                          drift |-> drift, rejected |-> rejected, npos |-> npos, nund |-> nund]))
+                          drift |-> drift, rejected |-> rejected, npos |-> npos, nund |-> nund, use |-> use]))
+EmitX(e, fails, kf, hits, drift, rejected, npos, nund) == EmitY(e, fails, kf, hits, drift, rejected, npos, nund, 0)
+MaxOf(S) == IF S = {} THEN 0 ELSE CHOOSE x \in S : \A y \in S : y <= x
+UseAt(val, sq, ex) ==
+  IF sq.ok /\ sq.s # {} /\ ex.ok /\ ValInR(val)
+  THEN LET d == Max(Max(Abs(val[1] - ex.xx), Abs(val[4] - ex.yy)), Max(Abs(val[2] - ex.xy), Abs(val[3] - ex.xy)))
+       IN  (100 * Min(d, 10000000)) \div ex.tol
+  ELSE 0
 
 Advance == /\ st' = 0 /\ l' = l + 1 /\ TLCSet(1, l + 1)
 
@@ -96,13 +104,14 @@ TenC == /\ st = 2 /\ E.ev = "Tensor"
                          \cup (IF pure /\ \E q \in dec : sel[q].s # {} THEN {"C18.pure_pressure"} ELSE {})
                          \cup (IF lin.on THEN {"C18.linear"} ELSE {})
                          \cup {"C18.centres"}
-             IN  EmitX(E, UNION {F[q] : q \in bad \ kfq} \cup (IF CentresFail(E) THEN {"C18.centres"} ELSE {})
+             IN  EmitY(E, UNION {F[q] : q \in bad \ kfq} \cup (IF CentresFail(E) THEN {"C18.centres"} ELSE {})
                           \cup (IF ~E.finite THEN {"C18.finite"} ELSE {}),
                        {"KF_KeyCollision:" \o cl : cl \in UNION {F[q] : q \in kfq}},
                        hits,
                        (IF Has(E, "lin") /\ ~lin.on THEN {"C18.linear_premise_not_met"} ELSE {})
                        \cup (IF Len(E.ent) # Cardinality(DistinctKeys(G)) THEN {"C18.key_model_mismatch"} ELSE {}),
-                       dec = {}, Cardinality(dec), Cardinality(Qs \ dec))
+                       dec = {}, Cardinality(dec), Cardinality(Qs \ dec),
+                       MaxOf({UseAt(cur.vals[q], sel[q], exq(q)) : q \in Qs \ kfq}))
         /\ runs' = IF HaveEnv THEN Append(runs, IF Usable(E) THEN [ok |-> TRUE, p |-> E.p, T |-> E.T, vals |-> cur.vals]
                                                  ELSE [ok |-> FALSE])
                    ELSE runs
